@@ -18,7 +18,7 @@ variable {Lx Ly Lz : Nat} {vx vy vz cx cy cz sx sy sz : Int}
 
 /-- the x leg of a triangle is always a qubit; it is an edge of the cube iff ... -/
 theorem legX_iff (hvx : R2 (2*Lx) vx) (hvy : R0 (2*Ly) vy) (hvz : R0 (2*Lz) vz)
-    (hcx : R1 (2*Lx) cx) (hcy : RM (2*Ly) cy) (hcz : R1 (2*Lz-1) cz) (hsx : U sx) :
+    (hcx : R1 (2*Lx) cx) (hcy : RM (2*Ly) cy) (hcz : R1 (2*Lz-1) cz) (_hsx : U sx) :
     [vx + sx, vy, vz] ∈ cubeKeys Lx Ly Lz cx cy cz ↔ (cx - vx = sx ∧ U (cy - vy) ∧ U (cz - vz)) := by
   unfold cubeKeys
   rw [List.mem_filter, mem_cubeLocs, isQubit_iff]
@@ -45,7 +45,7 @@ theorem legY_iff (hvx : R2 (2*Lx) vx) (hvy : R0 (2*Ly) vy) (hvz : R0 (2*Lz) vz)
 
 /-- the z leg may be missing (bottom and top layers), but then no cube contains it -/
 theorem legZ_iff (hvx : R2 (2*Lx) vx) (hvy : R0 (2*Ly) vy) (hvz : R0 (2*Lz) vz)
-    (hcx : R1 (2*Lx) cx) (hcy : RM (2*Ly) cy) (hcz : R1 (2*Lz-1) cz) (hsz : U sz) :
+    (hcx : R1 (2*Lx) cx) (hcy : RM (2*Ly) cy) (hcz : R1 (2*Lz-1) cz) (_hsz : U sz) :
     [vx, vy, vz + sz] ∈ cubeKeys Lx Ly Lz cx cy cz ↔ (cz - vz = sz ∧ U (cx - vx) ∧ U (cy - vy)) := by
   unfold cubeKeys
   rw [List.mem_filter, mem_cubeLocs, isQubit_iff]
